@@ -54,9 +54,9 @@ def gen_fullrelief(rnd, idn):
 def gen_procfull(rnd, idn):
     """Directed family: every shard is (nearly) full in one dimension only, and an unscraped healthy target needs room in
     exactly that dimension - e.g. a target whose samples are all dropped by metric relabeling (series 0, total > 0)."""
-    maxHead = rnd.choice([0, 10, 10])
+    maxHead = rnd.choice([0, 10, 10, 20, 30])       # also a head limit at or above the process limit
     maxProc = rnd.choice([20, 30])
-    dim = 'proc' if maxHead == 0 or rnd.random() < 0.6 else 'head'
+    dim = 'proc' if maxHead == 0 or rnd.random() < 0.5 else 'head'
     n = rnd.choice([1, 2, 3])
     shards = []
     for i in range(n):
@@ -64,7 +64,10 @@ def gen_procfull(rnd, idn):
             e = dict(t=i + 1, state='', health='up', times=rnd.choice([3, 7]), series=rnd.choice([1, 2]), total=maxProc - rnd.choice([2, 3, 4]))
         else:
             e = dict(t=i + 1, state='', health='up', times=rnd.choice([3, 7]), series=rnd.choice([8, 9]), total=rnd.choice([9, 10]))
-        shards.append(dict(mode='ok', report=[e], head=e['series'], proc=e['total'], idle='none', postFail=False))
+        head = e['series']
+        if dim == 'head' and maxHead > 10:
+            head = maxHead - rnd.choice([1, 2])      # Prometheus' own head (churn, series waiting for compaction) above what the targets add up to
+        shards.append(dict(mode='ok', report=[e], head=head, proc=e['total'], idle='none', postFail=False))
     new = n + 1
     if dim == 'proc':
         x = dict(t=new, state='', health='up', times=0, series=rnd.choice([0, 0, 1]), total=rnd.choice([5, 6, 8]))
@@ -77,12 +80,39 @@ def gen_procfull(rnd, idn):
                 shards=shards, active=list(range(1, new + 1)), explore=explore, failScale=0)
 
 
+def gen_packing(rnd, idn):
+    """Directed family (4 shards): two front shards with some room, a shard that can be emptied into them only if its two
+    targets are packed in the right order, and an idle shard behind it whose idle time has expired."""
+    maxHead = rnd.choice([0, 10])
+    maxProc = 20
+
+    def ent(t, series, total):
+        return dict(t=t, state='', health='up', times=rnd.choice([3, 4, 7]), series=series, total=total)
+    if maxHead:
+        # head rooms 7 and 5 (strictly below the limit: 6 and 4 usable), targets of 5 and 3 series... sizes so that one order fits and the other does not
+        f1, f2 = [ent(1, 3, 3)], [ent(2, 5, 5)]
+        d = [ent(3, rnd.choice([4, 5]), 5), ent(4, rnd.choice([5, 6]), 6)]
+    else:
+        f1, f2 = [ent(1, 2, 8)], [ent(2, 2, 11)]
+        d = [ent(3, 1, rnd.choice([8, 9])), ent(4, 1, rnd.choice([10, 11]))]
+    fronts = [f1, f2]
+    rnd.shuffle(fronts)
+    reports = fronts + [d, []]
+    shards = []
+    for rep in reports:
+        shards.append(dict(mode='ok', report=rep, head=sum(e['series'] for e in rep), proc=sum(e['total'] for e in rep),
+                           idle='none' if rep else 'expired', postFail=False))
+    return dict(id=idn, fam='packing', opts=dict(maxHead=maxHead, maxProc=maxProc, minShard=rnd.choice([0, 1]), maxShard=9, maxIdle=1, noAlleviate=False),
+                shards=shards, active=[1, 2, 3, 4], explore=[], failScale=0)
+
+
 def gen_input(rnd, idn, maxN=3, maxK=3):
     """One cycle input.  A family biases the draw towards one mechanism (the plain family is the
     unbiased mixture); every family still randomises everything else."""
     fam = rnd.choice(['plain', 'plain', 'scaledown', 'scaledown', 'relief', 'oversized', 'handover', 'unsynced', 'fullrelief'])
     if fam == 'fullrelief' and maxN >= 3 and maxK >= 3:
-        return gen_fullrelief(rnd, idn) if rnd.random() < 0.6 else gen_procfull(rnd, idn)
+        x = rnd.random()
+        return gen_fullrelief(rnd, idn) if x < 0.5 else gen_procfull(rnd, idn) if x < 0.85 else gen_packing(rnd, idn)
     n = min(maxN, rnd.choice([1, 2, 2, 3, 3, 3] if maxN == 3 else [1, 2, 3, 3, 4, 4]))
     if fam in ('scaledown', 'unsynced', 'relief'):
         n = min(maxN, rnd.choice([2, 3, 3, maxN]))
@@ -261,6 +291,10 @@ def run_pipeline(tier, scratch, sizes=None, inputs=None, consts=None):
         if sizes:
             ngrid, nrand, reps = sizes
         inputs = grid_inputs(ngrid) + [gen_input(rnd, 'r%d' % i, maxN, maxK) for i in range(nrand)]
+        # one input in eight goes over the wire: the unmodified HTTP client of pkg/api against servers that answer as scripted
+        for k, x in enumerate(inputs):
+            if k % 8 == 3:
+                x['wire'] = True
     else:
         reps = 6
     kvh = C.build_harness(scratch)
